@@ -18,6 +18,9 @@ CONFIGS = {
               {"compress": True, "wrapper_unions": False, "prefer_state": True}),
     "voc_i": (["v-oc.yang"], ["-generate_simple_unions", "-compress_paths", "-ignore_shadow_schema_paths"],
               {"compress": True, "wrapper_unions": False, "shadow": True}),
+    # a second revision of v-main whose enumeration `color` has different members: two generated
+    # packages in one process then define a same-named Go enum type with different tables
+    "vmain_r2": (["@rev2/v-main.yang", "v-types.yang", "v-defu.yang"], ["-generate_simple_unions"], {"compress": False, "wrapper_unions": False, "rev2": True}),
     "voc_u": (["v-oc.yang"], ["-generate_simple_unions"], {"compress": False, "wrapper_unions": False}),
 }
 
@@ -65,6 +68,14 @@ def prepare_overlay():
         p = subprocess.run(["go", "build", "-o", genbin, "./generator"], cwd=REPO, env=GOENV,
                            stdout=subprocess.PIPE, stderr=subprocess.STDOUT, text=True)
         info["generator_build"] = "ok" if p.returncode == 0 else p.stdout[-2000:]
+        # derived corpus: revision 2 of v-main
+        rev2 = os.path.join(gen_root, "rev2")
+        os.makedirs(rev2, exist_ok=True)
+        src = open(os.path.join(Y, "v-main.yang")).read()
+        a = "enum RED;\n      enum GREEN { value 5; }\n      enum BLUE;"
+        b = "enum RED;\n      enum BLUE;\n      enum GREEN { value 5; }\n      enum PURPLE;"
+        assert a in src
+        open(os.path.join(rev2, "v-main.yang"), "w").write(src.replace(a, b))
         for name, (yfiles, flags, props) in CONFIGS.items():
             d = os.path.join(gen_root, name)
             shutil.rmtree(d, ignore_errors=True)
@@ -72,8 +83,8 @@ def prepare_overlay():
             if p.returncode != 0:
                 info["generator"][name] = {"ok": False, "output": "generator does not build"}
                 continue
-            cmd = [genbin, "-path=" + Y, "-output_file=" + os.path.join(d, "gen.go"), "-package_name=" + name] + COMMON + flags + \
-                  [os.path.join(Y, f) for f in yfiles]
+            yf = [os.path.join(rev2, f[len("@rev2/"):]) if f.startswith("@rev2/") else os.path.join(Y, f) for f in yfiles]
+            cmd = [genbin, "-path=" + Y, "-output_file=" + os.path.join(d, "gen.go"), "-package_name=" + name] + COMMON + flags + yf
             q = subprocess.run(cmd, cwd=d, stdout=subprocess.PIPE, stderr=subprocess.STDOUT, text=True)
             ok = q.returncode == 0 and os.path.exists(os.path.join(d, "gen.go"))
             info["generator"][name] = {"ok": ok, "output": q.stdout[-1500:], "flags": flags, "yang": yfiles}
